@@ -31,7 +31,8 @@ def initM (label : String) : M :=
   let mt := (kvNat? ws "min_temp").getD 1
   let st := (kvNat? ws "start").getD 100
   let fl := (kv? ws "flavour").getD "seq"
-  { cfg := ⟨mt, MAX_TTL⟩, flavour := fl,
+  let mx := (kvNat? ws "max_ttl").getD MAX_TTL
+  { cfg := ⟨mt, mx⟩, flavour := fl,
     s := if fl = "enum" then .enum (NftEnum.init st)
          else if fl = "cons" then .cons (NftCons.init NftCons.noBuckets st)
          else .base (Nft.init st) }
